@@ -619,6 +619,15 @@ class DestHandler:
         if self.cfg.indication_cfg.eof_recv_indication_required:
             assert self._params.transaction_id is not None
             self.user.eof_recv_indication(self._params.transaction_id)
+        if eof_pdu.condition_code != ConditionCode.NO_ERROR:
+            # This is an EOF (Cancel), perform Cancel Response Procedures according to chapter
+            # 4.6.6 of the standard. Set remote ID as fault location.
+            assert self._params.remote_cfg is not None
+            self._trigger_notice_of_completion_canceled(
+                eof_pdu.condition_code,
+                EntityIdTlv(self._params.remote_cfg.entity_id.as_bytes),
+            )
+            self._params.finished_params.delivery_code = DeliveryCode.DATA_INCOMPLETE
         self._prepare_eof_ack_packet()
         self.states.step = TransactionStep.SENDING_EOF_ACK_PDU
 
